@@ -298,6 +298,7 @@ func rulesC06(cx *Ctx) []Obligation {
 		names = append(names, n)
 	}
 	sort.Strings(names)
+	collecting := map[string]string{} // checker kinds for which the dispatcher (on some path) only collects
 	for _, fn := range prims {
 		fi := GetFnInfo(fn)
 		recv := fn.Params[0]
@@ -306,8 +307,8 @@ func rulesC06(cx *Ctx) []Obligation {
 			return ok && base == ssa.Value(recv)
 		}
 		ev := func(ins ssa.Instruction) []string {
-			if liveRangeCheck(fn, ins) {
-				return []string{"check"}
+			if k := liveRangeCheckKind(fn, ins); k != "" {
+				return []string{"check", "check:" + k}
 			}
 			return nil
 		}
@@ -321,6 +322,9 @@ func rulesC06(cx *Ctx) []Obligation {
 				obs = append(obs, bad(key, desc, "no path returns normally for this kind", P.Pos(fn.Pos())+" "+P.FnName(fn)))
 			case got["check"]:
 				obs = append(obs, good(key, desc, P.FnName(fn)+" "+P.Pos(fn.Pos())))
+				if !got["check:imm"] {
+					collecting[name] = P.FnName(fn) + " " + P.Pos(fn.Pos())
+				}
 			default:
 				obs = append(obs, bad(key, desc, "a path from the switch edge for "+name+" returns without emitting any check (the range check is a no-op in this configuration)", P.Pos(fn.Pos())+" "+P.FnName(fn)))
 			}
@@ -337,13 +341,30 @@ func rulesC06(cx *Ctx) []Obligation {
 			}
 		}
 	}
-	obs = append(obs, rulesC06New(cx, enum, storeSites)...)
+	obs = append(obs, rulesC06New(cx, enum, storeSites, collecting)...)
 	obs = append(obs, rulesC06RangeCheck(cx)...)
+	obs = append(obs, ruleNoCopy(cx, "C06", "goldilocks", "Chip", "it owns the list of collected range checks that the deferred drain reads")...)
 	return obs
 }
 
 // liveRangeCheck: the instruction emits the function's own (x, n) to a real checker.
 func liveRangeCheck(fn *ssa.Function, ins ssa.Instruction) bool {
+	return liveRangeCheckKind(fn, ins) != ""
+}
+
+// liveRangeCheckKind: "imm" for Rangechecker.Check(x, n), "collect" for an append of {x, n} to the deferred
+// collection, "" otherwise
+func liveRangeCheckKind(fn *ssa.Function, ins ssa.Instruction) string {
+	if liveRangeCheck1(fn, ins) {
+		if _, ok := ins.(*ssa.Store); ok {
+			return "collect"
+		}
+		return "imm"
+	}
+	return ""
+}
+
+func liveRangeCheck1(fn *ssa.Function, ins ssa.Instruction) bool {
 	if len(fn.Params) < 3 {
 		return false
 	}
@@ -428,7 +449,7 @@ func liveRangeCheck(fn *ssa.Function, ins ssa.Instruction) bool {
 
 // ---------------------------------------------------------------- O6.2, O6.6 (chip construction) and O6.3, O6.4
 
-func rulesC06New(cx *Ctx, enum *enumInfo, stores []*ssa.Store) []Obligation {
+func rulesC06New(cx *Ctx, enum *enumInfo, stores []*ssa.Store, collecting map[string]string) []Obligation {
 	var obs []Obligation
 	P := cx.P
 	if len(stores) == 0 {
@@ -507,6 +528,27 @@ func rulesC06New(cx *Ctx, enum *enumInfo, stores []*ssa.Store) []Obligation {
 			obs = append(obs, good("C06/O6.2/defer", d, where))
 		} else {
 			obs = append(obs, bad("C06/O6.2/defer", d, fmt.Sprintf("events guaranteed on the COMMIT paths: %v", keysOf(gC)), where))
+		}
+		// a kind whose checks are only collected must have its drain deferred, else they are never looked at
+		knames := make([]string, 0, len(enum.ByName))
+		for n := range enum.ByName {
+			knames = append(knames, n)
+		}
+		sort.Strings(knames)
+		for _, kn := range knames {
+			kd := "checks of kind " + kn + " are either emitted immediately by the dispatcher or, if they are collected, the constructor defers the drain for that kind on every path"
+			kkey := "C06/O6.2/collected-are-drained/" + kn
+			at, col := collecting[kn]
+			if !col {
+				obs = append(obs, good(kkey, kd, where+" (emitted immediately)"))
+				continue
+			}
+			gK, rK := run(enum.ByName[kn])
+			if rK && gK["defer"] {
+				obs = append(obs, good(kkey, kd, where+" (collected in "+at+", drain deferred)"))
+			} else {
+				obs = append(obs, bad(kkey, kd, "the dispatcher collects checks of this kind ("+at+") but the constructor does not defer the drain when this kind is selected: the collected checks are never applied", where))
+			}
 		}
 		gN, rN := run(native)
 		d = "when the native checker is selected, the constructor installs gnark's range checker (rangecheck.New)"
@@ -920,4 +962,160 @@ func rulesC06RangeCheck(cx *Ctx) []Obligation {
 		obs = append(obs, bad("C06/O6.5/top-limb", dTop, "no such must-executed assertion over the two limbs", where))
 	}
 	return obs
+}
+
+// ruleNoCopy: a chip with mutable state (the deferred range-check collection and its mutex; the transcript buffers)
+// must not be updated through a copy: a method with a value receiver, a dereference `*chip` or a by-value parameter
+// works on a copy whose updates (collected checks, absorbed inputs) are lost. Decided on the SSA: every value of the
+// struct type itself (as opposed to a pointer to it) is located; the local holding it is harmful when its address
+// reaches a function that (transitively) writes a field of the chip through that pointer, or escapes. Copies that are
+// only read (a value-receiver getter, an unused snapshot) are not reported.
+func ruleNoCopy(cx *Ctx, prop, pkg, typ, what string) []Obligation {
+	P := cx.P
+	key := prop + "/no-copy/" + pkg + "." + typ
+	desc := "the stateful " + pkg + "." + typ + " (" + what + ") is never updated through a copy: no value receiver, dereference or by-value parameter hands a copy to code that writes the chip's state"
+	n := P.NamedType(pkg, typ)
+	if n == nil {
+		return []Obligation{undecided(key, desc, "type not found")}
+	}
+	isT := func(t types.Type) bool {
+		nt, ok := t.(*types.Named) // ssa's opaque iterator types are not go/types types: never hand them to types.Identical
+		return ok && nt.Obj() == n.Obj()
+	}
+	isPT := func(t types.Type) bool {
+		pt, ok := t.(*types.Pointer)
+		return ok && isT(pt.Elem())
+	}
+	// mutates(f, i): f writes a field of the chip through its i-th parameter (a *T), directly or in a callee
+	type fk struct {
+		f *ssa.Function
+		i int
+	}
+	memo := map[fk]int{}
+	var mutates func(f *ssa.Function, i int) bool
+	var flowsToWrite func(f *ssa.Function, ptr ssa.Value, seen map[ssa.Value]bool) bool
+	flowsToWrite = func(f *ssa.Function, ptr ssa.Value, seen map[ssa.Value]bool) bool {
+		if seen[ptr] {
+			return false
+		}
+		seen[ptr] = true
+		refs := ptr.Referrers()
+		if refs == nil {
+			return false
+		}
+		for _, r := range *refs {
+			switch x := r.(type) {
+			case *ssa.FieldAddr:
+				for _, r2 := range *x.Referrers() {
+					if st, ok := r2.(*ssa.Store); ok && st.Addr == ssa.Value(x) {
+						return true
+					}
+					if c, ok := r2.(ssa.CallInstruction); ok {
+						// &p.field handed to a call (e.g. p.collectedMutex.Lock()): a write of the chip's state
+						_ = c
+						return true
+					}
+				}
+			case *ssa.Store:
+				if x.Val == ptr {
+					return true // the pointer itself is stored somewhere: escapes
+				}
+			case ssa.CallInstruction:
+				com := x.Common()
+				g := com.StaticCallee()
+				args := com.Args
+				if g == nil {
+					if mc, ok := com.Value.(*ssa.MakeClosure); ok {
+						g, _ = mc.Fn.(*ssa.Function)
+					}
+				}
+				if g == nil {
+					for _, a := range args {
+						if a == ptr {
+							return true // dynamic call: unknown
+						}
+					}
+					continue
+				}
+				for ai, a := range args {
+					if a == ptr && ai < len(g.Params) && mutates(g, ai) {
+						return true
+					}
+				}
+			case *ssa.MakeClosure:
+				if g, ok := x.Fn.(*ssa.Function); ok {
+					for bi, b := range x.Bindings {
+						if b == ptr && bi < len(g.FreeVars) {
+							if flowsToWrite(g, g.FreeVars[bi], map[ssa.Value]bool{}) {
+								return true
+							}
+							if w := boundTarget(g); w != nil && len(w.Params) > 0 && mutates(w, 0) {
+								return true
+							}
+						}
+					}
+				}
+			case *ssa.Phi, *ssa.ChangeType, *ssa.MakeInterface:
+				if v, ok := r.(ssa.Value); ok && flowsToWrite(f, v, seen) {
+					return true
+				}
+			case *ssa.Return:
+				return true // handed out: unknown holder
+			}
+		}
+		return false
+	}
+	mutates = func(f *ssa.Function, i int) bool {
+		k := fk{f, i}
+		if v, ok := memo[k]; ok {
+			return v == 2
+		}
+		memo[k] = 1
+		res := false
+		if len(f.Blocks) == 0 {
+			res = true // no body: unknown
+		} else if i < len(f.Params) && isPT(f.Params[i].Type()) {
+			res = flowsToWrite(f, f.Params[i], map[ssa.Value]bool{})
+		}
+		if res {
+			memo[k] = 2
+		} else {
+			memo[k] = 3
+		}
+		return res
+	}
+	var sites []string
+	copies := 0
+	for _, fn := range P.ModuleFuncsSorted() {
+		for _, b := range fn.Blocks {
+			for _, ins := range b.Instrs {
+				al, ok := ins.(*ssa.Alloc)
+				if !ok || !isPT(al.Type()) {
+					continue
+				}
+				// is the local initialised from a T value (a copy), as opposed to field by field (a fresh chip)?
+				isCopy := false
+				for _, r := range *al.Referrers() {
+					if st, ok := r.(*ssa.Store); ok && st.Addr == ssa.Value(al) && isT(st.Val.Type()) {
+						isCopy = true
+					}
+				}
+				if !isCopy {
+					continue
+				}
+				copies++
+				if flowsToWrite(fn, al, map[ssa.Value]bool{}) {
+					sites = append(sites, fmt.Sprintf("%s: a copy of the %s (%s) is handed to code that writes its state — the update is lost", P.FnName(fn), typ, P.Pos(al.Pos())))
+				}
+			}
+		}
+	}
+	if len(sites) > 0 {
+		sort.Strings(sites)
+		if len(sites) > 4 {
+			sites = append(sites[:4], fmt.Sprintf("… %d more", len(sites)-4))
+		}
+		return []Obligation{bad(key, desc, strings.Join(sites, "; "))}
+	}
+	return []Obligation{good(key, desc, fmt.Sprintf("%s (%d read-only copies)", P.Pos(n.Obj().Pos()), copies))}
 }
